@@ -239,7 +239,7 @@ def rule_ctor_symmetry(ctx):
     shape0 = Form.atom(("idx", S("signal.shape"), Form.num(0)))
     for cls in CLASSES:
         init = pkg.find_method("typing", cls, "__init__")
-        base = {"noise": ["notnone", ("notinst", "str")], "signal": ["notnone", ("notinst", "str")], "dtype": None}   # np.array(signal) is never None
+        base = {"noise": ["notnone", ("notinst", "str", "electrical_signal", "optical_signal", "binary_sequence", "bytes")], "signal": ["notnone", ("notinst", "str", "electrical_signal", "optical_signal", "binary_sequence", "bytes")], "dtype": None}   # np.array(signal) is never None
         # shape-equality guard: mismatching shapes never construct an object
         for ndim in (0, 1, 2):
             ass = dict(base)
@@ -268,7 +268,7 @@ def rule_ctor_symmetry(ctx):
             for noise in ("notnone", "none"):
                 ass = dict(base)
                 ass.update(extra)
-                ass["noise"] = ["notnone", ("notinst", "str")] if noise == "notnone" else None
+                ass["noise"] = ["notnone", ("notinst", "str", "electrical_signal", "optical_signal", "binary_sequence", "bytes")] if noise == "notnone" else None
                 it = Interp(pkg, self_class=cls, assumptions=ass, valuation=val + [(S("signal.size"), 6)])
                 outs = it.run(init)
                 rets = [o for o in outs if o.kind == "return"]
